@@ -41,8 +41,6 @@ def workdir(pid, clean=True):
     d = os.path.join(WORK, pid)
     if clean and os.path.isdir(d):
         for name in os.listdir(d):
-            if name == "replay":
-                continue
             p = os.path.join(d, name)
             shutil.rmtree(p) if os.path.isdir(p) else os.remove(p)
     os.makedirs(os.path.join(d, "replay"), exist_ok=True)
